@@ -31,7 +31,12 @@ TRUSTED = [
 HEADER_BASE = ("From Coq Require Import List NArith Bool.\n"
                "From PV Require Import Lib.ListX Model.Lexer Model.LexerExec%s.\n"
                "Import ListNotations.\nLocal Open Scope N_scope.\n")
-BATCH = 400
+# batches travel as one primitive-array literal each (Model/LexerDecode.v); ListNotations would capture `[|`, so lists are only *printed* with brackets
+HEADER_ARR = ("From Coq Require Import List NArith Bool Uint63 PArray.\n"
+              "From PV Require Import Lib.ListX Model.Lexer Model.LexerExec Model.LexerDecode%s.\n"
+              "Notation \"[ ]\" := nil (only printing).\nNotation \"[ x ; .. ; y ]\" := (cons x .. (cons y nil) ..) (only printing).\n"
+              "Open Scope uint63_scope.\n")
+BATCH_MAX = 1500
 CHUNK = 60000
 
 
@@ -59,14 +64,15 @@ class Run:
     def setup_model(self, pr):
         use_gen = "error" not in self.info
         with Lock("coq"):
-            rc, out, err = coq_make(["Model/LexerExec.vo"] + (["Model/LexerGen.vo"] if use_gen else []), timeout=900)
+            rc, out, err = coq_make(["Model/LexerDecode.vo"] + (["Model/LexerGen.vo"] if use_gen else []), timeout=900)
             if rc != 0 and use_gen:
                 use_gen = False
-                rc, out, err = coq_make(["Model/LexerExec.vo"], timeout=900)
+                rc, out, err = coq_make(["Model/LexerDecode.vo"], timeout=900)
         if rc != 0:
             self.ck.coverage["model_build_error"] = (out + err)[-800:]
             return
         self.header = HEADER_BASE % (" Model.LexerGen" if use_gen else "")
+        self.header_arr = HEADER_ARR % (" Model.LexerGen" if use_gen else "")
         self.tables = "gen_tables" if use_gen else "snapshot_tables"
         self.ck.coverage["model_tables"] = self.tables + ("" if use_gen else " (FALLBACK: translator failed closed; hand snapshot used only to drive the search)")
         self.model_ok = True
@@ -100,6 +106,67 @@ class Run:
         if fid is not None or c < 6:
             return self.ck.disagreement(what, case, classify)
         return None
+
+    def model_failed(self, why):
+        """fail closed: the correspondence could not be run"""
+        self.model_ok = False
+        self.ck.coverage["model_eval_error"] = why
+        self.ck.violation("C17 model/implementation correspondence could not be evaluated: " + why[:300], {"clause": "correspondence-machinery", "why": why})
+
+    def transport_selftest(self):
+        """the array transport (python enc_case -> Model/LexerDecode.v) is validated on every run:
+        (1) the decoded corpus batch printed back by Coq equals the implementation's answers as python sees them;
+        (2) canaries: answers falsified at known indices are reported as differing at exactly those indices."""
+        if not self.model_ok:
+            return
+        strs = [s for s in L.CORPUS + L.TRANSPORT_EXTRA if all(L.in_domain(c) for c in s)]
+        ans = harness("lex", [{"src": s} for s in strs])
+        keep, enc = [], []
+        for s, a in zip(strs, ans):
+            try:
+                enc.append(L.enc_case(s, a))
+                keep.append((s, a))
+            except (L.NeedsSlowPath, ValueError):
+                pass
+        vals = coq_eval(self.header_arr, ["decode_arr %s" % L.arr_literal(enc[j:j + 40]) for j in range(0, len(enc), 40)])
+        back = []
+        for v in vals:
+            if not (isinstance(v, tuple) and v[0] == "Some"):
+                self.model_failed("transport self-test: batch did not decode (%r)" % (v,))
+                return
+            back.extend(v[1])
+        ok = len(back) == len(keep)
+        kinds = set()
+        for (s, a), b in zip(keep, back):
+            src = "".join(chr(c) for c in b[0])
+            toks = L.py_model(b[1])
+            if src != s or toks != L.py_impl(a):
+                ok = False
+                self.ck.violation("transport self-test: Coq decoded %r differently from what python encoded" % s, {"src": s, "decoded": repr(b)[:600], "clause": "correspondence-machinery"})
+                break
+            for t in toks or []:
+                kinds.add(t[0][0] if t[0][0] != "Literal" else "Literal:" + t[0][1][0])
+        # canaries
+        fals, want = [], []
+        for i, (s, a) in enumerate(keep[:120]):
+            if i % 3 == 0:
+                fa = {"err": []} if "ok" in a else {"ok": [{"kind": "Start", "span": {"start": 0, "end": 0}}]}
+                want.append(i)
+            elif i % 3 == 1 and "ok" in a and len(a["ok"]) > 1:
+                fa = {"ok": [dict(t) for t in a["ok"]]}
+                fa["ok"][-1] = {"kind": a["ok"][-1]["kind"], "span": {"start": a["ok"][-1]["span"]["start"], "end": a["ok"][-1]["span"]["end"] + 1}}
+                want.append(i)
+            else:
+                fa = a
+            fals.append(L.enc_case(s, fa))
+        r = coq_eval(self.header_arr, ["disagree_arr %s %s" % (self.tables, L.arr_literal(fals))])[0]
+        got = list(r[1]) if isinstance(r, tuple) and r[0] == "Some" else None
+        if got is None or not set(want) <= set(got):
+            ok = False
+            self.ck.violation("transport self-test: falsified answers were not all reported as differing", {"want": want, "got": got, "clause": "correspondence-machinery"})
+        self.ck.coverage["transport_selftest"] = {"decoded_cases": len(back), "token_kinds_round_tripped": sorted(kinds), "canaries": len(want), "ok": ok,
+                                                  "canaries_reported": None if got is None else len(got)}
+        self.ck.count("transport-selftest", "corpus", nontrivial=True)
 
     # ---------------------------------------------------------------- one chunk of strings
     def process(self, stream, strs):
@@ -160,27 +227,26 @@ class Run:
                 ck.stat(stream, "outside-validated-class-domain (oracle only)")
                 continue
             try:
-                fast.append((i, "(%s, %s)" % (L.codes(s), L.coq_answer(a))))
+                fast.append((i, L.enc_case(s, a)))
             except L.NeedsSlowPath:
                 slow.append(i)
             except ValueError as ex:
                 self.report("encode", "cannot encode the implementation's answer: %s" % ex, {"src": s, "answer": a})
         t0 = time.time()
-        exprs = ["disagree %s 0 [%s]" % (self.tables, "; ".join(e for _, e in fast[j:j + BATCH])) for j in range(0, len(fast), BATCH)]
+        batch = max(100, min(BATCH_MAX, (len(fast) + 31) // 32))
+        exprs = ["disagree_arr %s %s" % (self.tables, L.arr_literal([e for _, e in fast[j:j + batch]])) for j in range(0, len(fast), batch)]
         try:
-            res = coq_eval(self.header, exprs)
+            res = coq_eval(self.header_arr, exprs)
         except RuntimeError as ex:
-            ck.coverage["model_eval_error"] = str(ex)[-600:]
-            self.model_ok = False
+            self.model_failed("model evaluation failed: %s" % str(ex)[-600:])
             return
         bad = []
         for bi, r in enumerate(res):
-            if r is None:
-                ck.coverage["model_eval_error"] = "missing batch result"
-                self.model_ok = False
+            if r is None or r == "None" or not (isinstance(r, tuple) and r[0] == "Some"):
+                self.model_failed("batch %d of stream %s: no result / the batch did not decode (%r)" % (bi, stream, r))
                 return
-            for k in r:
-                bad.append(fast[bi * BATCH + k][0])
+            for k in r[1]:
+                bad.append(fast[bi * batch + k][0])
         again = slow + bad[:40]
         vals = coq_eval(self.header, ["run %s %s" % (self.tables, L.codes(strs[i])) for i in again]) if again else []
         self.t_model += time.time() - t0
@@ -281,10 +347,21 @@ def run():
 
     validate_classes(ck, R)
 
+    R.transport_selftest()
     # (a) corpus, and the directed family "unusual character at either end of a source": every corpus string with a
     #     BOM / NBSP / ZWSP / CR / VT / FF / NEL / LS / ideographic space put in front of it or after it
     R.stream("corpus", L.CORPUS)
     R.stream("corpus-edge-chars", [e + s for e in L.EDGE_CHARS for s in L.CORPUS] + [s + e for e in L.EDGE_CHARS for s in L.CORPUS])
+    # (a') directed family: every reserved / literal-like word of the current tables x every left context (line start, after a token,
+    #      glued to a token, inside brackets, after operators) x every right context (terminators and non-terminators).
+    #      quick: all (word, left) pairs with a small right set + all (word, right) pairs with a small left set; thorough: the full product
+    words = L.context_words(info if "error" not in info else {})
+    wc = list(L.word_contexts(words, full=ck.thorough))
+    for cls, _ in wc:
+        ck.stat("word-contexts", "position-class:" + cls)
+    R.stream("word-contexts", [src for _, src in wc])
+    ck.coverage["word_contexts"] = {"words": words, "left_contexts": {k: len(v) for k, v in L.LEFT_CONTEXTS.items()},
+                                    "right_contexts": len(L.RIGHT_TERMINATORS) + len(L.RIGHT_OTHERS), "full_product": ck.thorough, "sources": len(wc)}
     # (b) exhaustive over the lexical alphabet: all strings of length <= 3; in the thorough tier also all of length 4
     #     when the measured rate allows it within ~15 minutes (otherwise a seeded sample of that length, recorded)
     import itertools
